@@ -1,6 +1,7 @@
 import ScriggoV.Drv.Util
 import ScriggoV.Model.LinkDest
 import ScriggoV.Model.LinkDestFence
+import ScriggoV.Model.LinkDestInline
 namespace ScriggoV.Drv.C29
 open ScriggoV ScriggoV.LinkDest
 
@@ -30,7 +31,9 @@ def bit (b : Bool) : String := if b then "1" else "0"
 `destination <hex line> <pos>`, `title <hex line> <pos>`, `labelend <hex line> <pos>`,
 `fencestart <hex line>` (`ok none` / `ok <char> <len>`), `fenceclose <hex line> <char> <len>`,
 `indented <hex line>` (`ok 0` / `ok 1`), `fencescan <hex source>` (one bit per line of the source
-split at LF: skipped as part of a fenced block) -/
+split at LF: skipped as part of a fenced block), `inline <hex line>` (scanInlineLinks with a fresh
+HTML state: `ok unsupported` where the real code enters its HTML state, else `ok` and the
+`start stop` pairs handed to appendReplacement) -/
 def handle : List String → Option String
   | "apply" :: h :: n :: rest => do
     let src ← fromHex h
@@ -81,6 +84,11 @@ def handle : List String → Option String
   | ["fencescan", h] => do
     let src ← fromHex h
     pure ("ok " ++ String.join ((fenceScan none (splitLines [] src)).map bit))
+  | ["inline", h] => do
+    let line ← fromHex h
+    pure (match scanInlineLinks line with
+          | none => "ok unsupported"
+          | some out => String.intercalate " " ("ok" :: out.map fun (a, b) => s!"{a} {b}"))
   | _ => none
 
 end ScriggoV.Drv.C29
